@@ -111,6 +111,7 @@ def whole_line_items(text):
 
 
 CANON_VALUES = [
+    '"say \\"hi\\""', '"\\""', '"C:\\\\"', '"a\\nb"', '"${x}\\""', '"\\${x}"', "''a ''\\n b''",
     "[ ]", "{ }", "null", "true", "-1", "1.5", '"s"', '"a${b}c"', "./p", "<nixpkgs>", "a.b.c", "a.b or c", "f x", "f [ ]", "f { }",
     "lib.optionals stdenv.isDarwin [ ]", "lib.makeBinPath [ ]", "f [ 1 ] [ ]", "f { } [ ]", "a + b", "a ++ [ ]", "a // { }", "!a", "a ? b", "x: x", "{ a }: a",
     "(f x)", "[ 1 2 ]", "[ a ]", "{ a = 1; }", "if a then b else c", "with a; b", "f (g x)", "a == b", "a -> b", "[ (f x) ]",
@@ -291,6 +292,22 @@ def idiom(r):
         "{\n  a = 1;\n  b = [ 1 2 ];\n}",
         "buildPythonPackage {\n  pname = \"x\";\n\n  doCheck = false;\n}",
     ])
+    if r.random() < 0.4:
+        # a `++` / `//` chain with the operators at line starts and a comment in front of one of the later operators
+        op = r.choice(["++", "//"])
+        o, c = ("[", "]") if op == "++" else ("{", "}")
+        item = (lambda k: f"    dep{k}") if op == "++" else (lambda k: f"    key{k} = {k};")
+        n = r.randint(3, 5)
+        cpos = r.randrange(1, n)
+        lines = [f"  inputs = {o}", item(0), f"  {c}"]
+        for k in range(1, n):
+            if k == cpos or r.random() < 0.2:
+                lines.append(r.choice(["  # Darwin needs this", "  # see issue 42", "  # optional"]))
+            lines.append(f"  {op} lib.option{'als' if op == '++' else 'alAttrs'} cond{k} {o}")
+            lines.append(item(k))
+            lines.append(f"  {c}")
+        lines[-1] += ";"
+        body = "stdenv.mkDerivation {\n  pname = \"x\";\n" + "\n".join(lines) + "\n}"
     parts = [head]
     blank = r.random() < 0.7  # one style per file: statements separated by blank lines, or directly below each other
     for st_ in stmts + [body]:
